@@ -182,7 +182,7 @@ impl QuicMultiplexer {
                         Some(m) => Some(Event::UdpSend(m)),
                         None => return Err(io::Error::new(ErrorKind::Other, "Message receiving channel closed unexpectedly")),
                     },
-                    _ = &mut wait_timeout, if self.closest_deadline.is_some_and(|x| x > Instant::now()) => None,
+                    _ = &mut wait_timeout, if self.closest_deadline.is_some() => None,
                 }
             };
 
@@ -688,17 +688,40 @@ impl QuicMultiplexer {
         for conn_id in timedout {
             self.deadlines.remove(&conn_id);
 
-            match self.connections.get_mut(&conn_id) {
-                None => log_id!(
-                    debug,
-                    self.id,
-                    "Expired connection not found: {:?}",
-                    conn_id
-                ),
-                Some(Connection::Handshake(conn)) => conn.quic_conn.lock().unwrap().on_timeout(),
-                Some(Connection::Established(conn)) => conn.quic_conn.lock().unwrap().on_timeout(),
+            let quic_conn = match self.connections.get(&conn_id) {
+                None => {
+                    log_id!(
+                        debug,
+                        self.id,
+                        "Expired connection not found: {:?}",
+                        conn_id
+                    );
+                    continue;
+                }
+                Some(Connection::Handshake(conn)) => conn.quic_conn.clone(),
+                Some(Connection::Established(conn)) => conn.quic_conn.clone(),
+            };
+            let mut quic_conn = quic_conn.lock().unwrap();
+            quic_conn.on_timeout();
+
+            // the timer may have produced packets (a probe, the closing frame) ...
+            let mut out = [0; net_utils::MAX_UDP_PAYLOAD_SIZE];
+            while let Ok((n, info)) = quic_conn.send(&mut out) {
+                if let Err(e) = udp_socket_send_to(&self.socket, &out[..n], &info.to, &self.id) {
+                    log_id!(debug, self.id, "Failed to flush QUIC connection: {}", e);
+                    break;
+                }
+            }
+
+            // ... and the connection has its next deadline
+            if let Some(timeout) = quic_conn.timeout() {
+                self.deadlines.insert(conn_id, now + timeout);
             }
         }
+
+        // arm the timer for what is left: it only ever moved earlier otherwise, and once the
+        // earliest deadline had passed no timer fired any more
+        self.closest_deadline = self.deadlines.values().min().copied();
     }
 
     fn on_socket_message(&mut self, message: SocketMessage) -> io::Result<()> {
